@@ -391,7 +391,12 @@ def _pre_state(scan, f, loop):
 # R-10.3: the pick part; yields the roles of the tuple components
 # ------------------------------------------------------------------------------------------
 def _tuple_comp(e, var):
-    """E[k] for the loop variable `var` -> k"""
+    """component of the segment tuple an expression denotes: E[k] for the loop variable `var`,
+    or - when the loop unpacks the tuple (`for a, b, c in segments`, var = {name: k}) - a name"""
+    if isinstance(var, dict):
+        if isinstance(e, ast.Name) and e.id in var:
+            return var[e.id]
+        return None
     if isinstance(e, ast.Subscript) and isinstance(e.value, ast.Name) and e.value.id == var and isinstance(e.slice, ast.Constant) and isinstance(e.slice.value, int):
         return e.slice.value
     return None
@@ -399,7 +404,7 @@ def _tuple_comp(e, var):
 
 def _aff_tuple(e, var, fl, at):
     """affine form over tuple components ('T', k) and 1"""
-    if isinstance(e, ast.Name) and e.id != var:
+    if isinstance(e, ast.Name) and (e.id not in var if isinstance(var, dict) else e.id != var):
         e2, at2 = deref(fl, e, at)
         if e2 is not e:
             return _aff_tuple(e2, var, fl, at2)
@@ -455,11 +460,12 @@ def r103(ctx, f, loop, path_p, listname):
         else:
             ctx.bad(rid, r, f"a return of {WF} does not hand out the total frame count as the weight", construct=short(r, 60))
     # the selection loop
-    sel = [n for n in post_nodes if isinstance(n, ast.For) and isinstance(n.iter, ast.Name) and n.iter.id == listname and isinstance(n.target, ast.Name)]
+    sel = [n for n in post_nodes if isinstance(n, ast.For) and isinstance(n.iter, ast.Name) and n.iter.id == listname
+           and (isinstance(n.target, ast.Name) or (isinstance(n.target, ast.Tuple) and all(isinstance(x, ast.Name) for x in n.target.elts)))]
     if len(sel) != 1:
         raise AnalysisError(f"R-10.3: {len(sel)} selection loops over the segment list (expected 1)")
     L = sel[0]
-    var = L.target.id
+    var = L.target.id if isinstance(L.target, ast.Name) else {x.id: k for k, x in enumerate(L.target.elts)}
     accs = [n for n in ast.walk(L) if isinstance(n, ast.AugAssign) and isinstance(n.target, ast.Name) and isinstance(n.op, ast.Add) and _tuple_comp(n.value, var) is not None]
     if len(accs) != 1:
         raise AnalysisError("R-10.3: running sum `acc += seg[c]` not found in the selection loop")
@@ -965,9 +971,12 @@ def r104(ctx, rid="R-10.4"):
         ne = False
         for e, t in facts:
             if isinstance(e, ast.Compare) and len(e.ops) == 1 and isinstance(e.ops[0], (ast.NotEq, ast.Eq)) and t == isinstance(e.ops[0], ast.NotEq):
-                calls = [e.left, e.comparators[0]]
-                nm = sorted(last_name(x) if isinstance(x, ast.Call) else "?" for x in calls)
-                if nm == ["get_end_point", "get_start_point"] and all([ast.unparse(a).replace(" ", "") for a in x.args[:2]] == [f"{gi}[0]", f"{gi}[2]"] and ast.unparse(x.func.value) == gp for x in calls):
+                dat = gcfg.node_of(st)
+                calls = [deref(gfl, x, dat) for x in (e.left, e.comparators[0])]
+                nm = sorted(last_name(x) if isinstance(x, ast.Call) else "?" for x, _ in calls)
+                if nm == ["get_end_point", "get_start_point"] and all(
+                        [ast.unparse(deref(gfl, a, xat)[0]).replace(" ", "") for a in x.args[:2]] == [f"{gi}[0]", f"{gi}[2]"] and isinstance(x.func, ast.Attribute) and ast.unparse(x.func.value) == gp
+                        for x, xat in calls):
                     ne = True
         inwf = False
         for e, t in facts:
@@ -1142,6 +1151,12 @@ def r105(ctx):
     n_pre = 0
     shift_ok = None
     for st in ie.body:
+        if isinstance(st, ast.For) and isinstance(st.iter, ast.Subscript) and isinstance(st.iter.slice, ast.Slice) and isinstance(st.iter.slice.lower, ast.Constant) \
+                and isinstance(st.iter.slice.lower.value, int) and st.iter.slice.step is None and isinstance(st.target, ast.Name) \
+                and any(isinstance(x, (ast.List, ast.Tuple)) and len(x.elts) == 3 and isinstance(x.elts[1], ast.Name) and x.elts[1].id == st.target.id for x in ast.walk(st)):
+            # for middle in intfs[k:-1]:  the t-th ensemble built here has the middle interface I[k + t]
+            shift_ok = (n_pre, st.iter.slice.lower.value, st.iter)
+            break
         if isinstance(st, ast.For) and isinstance(st.iter, ast.Call) and last_name(st.iter) == "range":
             for x in ast.walk(st):
                 if isinstance(x, ast.Subscript) and isinstance(x.slice, ast.BinOp) and isinstance(x.slice.op, ast.Add) and isinstance(x.slice.right, ast.Constant) and isinstance(x.slice.left, ast.Name) and isinstance(st.target, ast.Name) and x.slice.left.id == st.target.id:
